@@ -15,9 +15,12 @@ import vlib
 
 KINDS = ['TypeError', 'ValueError', 'KeyError', 'IOError']
 NK = len(KINDS)
+NV = 3            # variants per kind: object o = 10*kind + variant; same kind = `eq` but distinct objects
+REPS = 'TIS'      # realisations of the objects in the harnesses (harness/exn_objs.h)
 
 # ----------------------------------------------------------------------------- trees
-# ('.',) ('t', n) (';', p, q) ('!', k, m) ('T', [k..], b, h) ('C', p)
+# ('.',) ('t', n) (';', p, q) ('!', o, m) ('T', [o..], b, h) ('C', p)      o = 10*kind + variant
+# a case line may start with the token @T / @I / @S (realisation of the objects)
 
 
 def show(p):
@@ -26,13 +29,21 @@ def show(p):
     if t == 't': return 't%d' % p[1]
     if t == ';': return '; %s %s' % (show(p[1]), show(p[2]))
     if t == '!': return '!%d,%d' % (p[1], p[2])
-    if t == 'T': return 'T%s %s %s' % (''.join(str(k) for k in p[1]), show(p[2]), show(p[3]))
+    if t == 'T': return 'T%s %s %s' % ('.'.join(str(k) for k in p[1]), show(p[2]), show(p[3]))
     if t == 'C': return 'C %s' % show(p[1])
     raise ValueError(p)
 
 
+def rep_of(s):
+    return s[1] if s.startswith('@') else 'T'
+
+
+def with_rep(rep, body):
+    return body if rep == 'T' else '@%s %s' % (rep, body)
+
+
 def parse(s):
-    toks = s.split()
+    toks = [t for t in s.split() if t[0] != '@']
     pos = [0]
 
     def go():
@@ -45,7 +56,7 @@ def parse(s):
         if c == '!':
             k, m = rest.split(','); return ('!', int(k), int(m))
         if c == 'T':
-            fs = [int(x) for x in rest]; b = go(); h = go(); return ('T', fs, b, h)
+            fs = [int(x) for x in rest.split('.') if x]; b = go(); h = go(); return ('T', fs, b, h)
         if c == 'C': return ('C', go())
         raise ValueError(t)
     p = go()
@@ -176,11 +187,57 @@ class Gen:
             outer = ('T', self.filt(k), outer, self.tick())
         return seq([outer, self.tick()])
 
-    def case(self, maxnodes, nk=NK):
+    def objectify(self, p):
+        """kinds -> objects: every throw picks one of the NV distinct-but-eq objects of its kind and,
+        with the case's probability, the EMPTY format (message 0); every filter entry picks an object
+        of its kind (a kind listed twice may or may not become the same object twice)"""
         rng = self.rng
-        self.nk = nk
+        t = p[0]
+        if t == '!':
+            return ('!', 10 * p[1] + rng.randrange(NV), 0 if rng.random() < self.p_empty else p[2])
+        if t == ';': return (';', self.objectify(p[1]), self.objectify(p[2]))
+        if t == 'C': return ('C', self.objectify(p[1]))
+        if t == 'T':
+            return ('T', [10 * k + rng.randrange(NV) for k in p[1]], self.objectify(p[2]), self.objectify(p[3]))
+        return p
+
+    def finish(self, p):
+        return with_rep(self.rng.choice('TTTIIS'), show(self.objectify(p)))
+
+    def twins(self):
+        """an object is thrown and handled, then a DIFFERENT object that is eq to it is thrown (often with
+        the empty format): one after another, after an inner block handled the first, or from the
+        handler that is running; the second handler must be bound to the second object"""
+        rng = self.rng
+        k = rng.randrange(NK)
+        a, b = rng.sample(range(NV), 2)
+        m1 = rng.choice([0, 0, 5, 77]); m2 = rng.choice([0, 0, 0, 9])
+        first = ('T', rng.choice([[], [10 * k + rng.randrange(NV)]]), ('!', 10 * k + a, m1), rng.choice([('.',), self.tick()]))
+        second = ('!', 10 * k + b, m2)
+        f2 = rng.choice([[], [10 * k + rng.randrange(NV)], [10 * k + a]])
+        shape = rng.randrange(4)
+        if shape == 0:      # one construct after another
+            mid = [self.tick()] if rng.random() < .3 else []
+            if rng.random() < .2: mid.append(('T', [], ('!', 10 * ((k + 1) % NK), 3), ('.',)))    # an unequal throw in between
+            p = seq([first] + mid + [('T', f2, second, self.tick())])
+        elif shape == 1:    # inner block handles the first, the outer body throws its twin
+            p = ('T', f2, seq([first, second]), self.tick())
+        elif shape == 2:    # the running handler throws a twin of what it caught
+            p = ('T', f2, ('T', first[1], first[2], seq([self.tick(), second])), self.tick())
+        else:               # three in a row: a, b, a
+            p = seq([first, ('T', f2, second, self.tick()), ('T', [], ('!', 10 * k + a, 0), self.tick())])
+        if rng.random() < .3: p = seq([p, self.tick()])
+        return with_rep(rng.choice('TIS'), show(p))
+
+    def case(self, maxnodes, nk=None):
+        rng = self.rng
+        self.nk = nk or rng.choice([1, 2, 2, 4, 4, 4])       # few kinds: successive throws are often eq
+        nk = self.nk
+        self.p_empty = rng.choice([0, .3, .3, .7, 1])
         self.fresh()
         r = rng.random()
+        if r < .12:
+            return self.twins()
         if r < .40:
             p = self.tree(rng.randrange(3, maxnodes + 1))
         elif r < .60:
@@ -203,13 +260,14 @@ class Gen:
             p = ('T', self.filt(k), self.throw(k), h)
             if rng.random() < .5:
                 p = ('T', self.filt(), p, self.tick())
-        return show(p)
+        return self.finish(p)
 
     def deep(self, n):
         """deep nesting (n >= 30): a throw at the bottom, mostly non-matching filters"""
         self.nk = NK
         self.fresh()
         rng = self.rng
+        self.p_empty = rng.choice([0, .5])
         k = rng.randrange(NK)
         p = self.throw(k)
         stop = rng.randrange(n + 1)                   # level of the first matching filter (n = nobody)
@@ -221,24 +279,22 @@ class Gen:
             p = ('T', fs, p, h)
             if rng.random() < .5: p = ('C', p)
             if rng.random() < .3: p = (';', p, self.tick())
-        return show(p)
+        return self.finish(p)
 
 
-def enumerate_trees(maxnodes, nk=2):
-    """every tree with at most maxnodes nodes over nk kinds: leaves skip / tick / throw k,
-    inner nodes seq / try with each subset of the kinds as filter (PCall left out: inlining).
+def enumerate_trees(maxnodes):
+    """every tree with at most maxnodes nodes over the objects 0, 1 (distinct, eq to each other) and 10
+    (another kind): leaves skip / tick / throw(X0, "") / throw(X1, "") / throw(X10, msg); inner nodes
+    seq / try with the filters catch-all, [0], [10], [0, 10] (PCall left out: inlining).
     Ticks and messages are renumbered left to right afterwards."""
-    filters = [[]]
-    for k in range(nk):
-        filters += [f + [k] for f in filters]
-    filters = [f for f in filters]               # all subsets
+    filters = [[], [0], [10], [0, 10]]
     memo = {}
 
     def trees(n):
         if n in memo: return memo[n]
         out = []
         if n == 1:
-            out = [('.',), ('t', 0)] + [('!', k, 0) for k in range(nk)]
+            out = [('.',), ('t', 0), ('!', 0, 0), ('!', 1, 0), ('!', 10, 1)]
         else:
             for a in range(1, n - 1):
                 for x in trees(a):
@@ -252,7 +308,9 @@ def enumerate_trees(maxnodes, nk=2):
     def renum(p, c):
         t = p[0]
         if t == 't': c[0] += 1; return ('t', c[0])
-        if t == '!': c[1] += 1; return ('!', p[1], c[1])
+        if t == '!':
+            if p[2] == 0: return p
+            c[1] += 1; return ('!', p[1], c[1])
         if t == ';': a = renum(p[1], c); b = renum(p[2], c); return (';', a, b)
         if t == 'T': a = renum(p[2], c); b = renum(p[3], c); return ('T', p[1], a, b)
         return p
@@ -278,15 +336,26 @@ def canon(raw):
     if re.match(r'^N@\d+$', rest):
         fin = rest
     else:
-        m = re.search(r'Uncaught (\w+)\s+!!\s+!!\s+m(\d+)\s+!!\s*\| EXIT\((\d+)\)$', rest)
-        if m and m.group(1) in KINDS and rest.startswith('!!'):
-            fin = 'D%d,%s' % (KINDS.index(m.group(1)), m.group(2))
+        m = re.search(r'Uncaught (\S+)\s+!!\s+!!\s+(?:m(\d+)\s+)?!!\s*\| EXIT\((\d+)\)$', rest)
+        kind = diag_kind(m.group(1)) if m else None
+        if m and kind is not None and rest.startswith('!!'):
+            fin = 'D%d,%s' % (kind, m.group(2) or '0')
             if m.group(3) != '1': fin += ' EXIT(%s)' % m.group(3)
         elif re.match(r'^Cello Fatal Error: Exception Buffer Overflow!\s*\| CRASH\(6\)$', rest):
             fin = 'ABORT'
         else:
             fin = 'RAW[' + rest + ']'
     return ' '.join(ev + [fin])
+
+
+def diag_kind(name):
+    """kind of the object the Uncaught diagnostic shows (its value, not its identity)"""
+    if name in KINDS: return KINDS.index(name)
+    m = re.match(r'^40([4-7])$', name)
+    if m: return int(m.group(1)) - 4
+    m = re.match(r'^"xs([0-3])"$', name)
+    if m: return int(m.group(1))
+    return None
 
 
 def split_tr(line):
@@ -299,7 +368,7 @@ def split_tr(line):
 
 
 def strip_ev(e):
-    """what the property speaks about: the statement that ran / the object bound in the handler"""
+    """what the property speaks about: the statement that ran / the object (identity) bound in the handler"""
     if e[0] == 't': return e.split('@')[0]
     if e[0] == 'h': return 'h' + e[1:].split(',')[0]
     return e
@@ -332,7 +401,11 @@ def oracle(case, impl, spec):
 
 def descr(e):
     if e[0] == 't': return 'statement ' + e[1:]
-    if e[0] == 'h': return 'handler entered with ' + (KINDS[int(e[1:])] if e[1:].isdigit() and int(e[1:]) < NK else e[1:])
+    if e[0] == 'h':
+        o = e[1:]
+        if o.isdigit() and int(o) // 10 < NK and int(o) % 10 < NV:
+            return 'handler entered with object %s (%s, variant %d)' % (o, KINDS[int(o) // 10], int(o) % 10)
+        return 'handler entered with object ' + o
     return e
 
 
@@ -403,23 +476,13 @@ class TreeDiff(vlib.Differential):
 LEX_HEAD = r'''/* generated by props/C07.py: program trees as straight-line C with LEXICAL nesting */
 #include "Exception.c"
 #include "hcommon.h"
-#define K0 TypeError
-#define K1 ValueError
-#define K2 KeyError
-#define K3 IOError
+#include "exn_objs.h"
 #define LEN len(current(Exception))
 #define TICK(n) do { P("t%d@%zu ", n, LEN); fflush(OUT); } while (0)
-#define THROW(K, m) throw(K, "m%i", $I(m))
 #define DCHK(d0) do { size_t d1_ = LEN; if (d1_ != d0) { P("X%zu->%zu ", d0, d1_); fflush(OUT); } } while (0)
-static int kind_idx(var e) {
-  if (e is K0) return 0; if (e is K1) return 1; if (e is K2) return 2; if (e is K3) return 3;
-  if (e is NULL) return -1;
-  return 99;
-}
 static void on_handler(var e) {
   struct Exception* x = current(Exception);
-  const char* s = c_str(x->msg);
-  P("h%d,%s@%zu ", kind_idx(e), (s[0] == 'm') ? s+1 : s, LEN);
+  P("h%d,", obj_id(e)); print_msg(c_str(x->msg)); P("@%zu ", LEN);
   fflush(OUT);
 }
 '''
@@ -427,6 +490,7 @@ LEX_TAIL = r'''
 static void do_case(char* line) {
   int i = atoi(line);
   if (i < 0 || i >= NPROG) { P("BADCASE"); return; }
+  setup_objs(reps[i]);
   fflush(OUT);
   dup2(fileno(OUT), 2);
   progs[i]();
@@ -445,7 +509,7 @@ def lex_source(cases):
         pad = '  ' * ind
         if t == '.': return pad + ';\n'
         if t == 't': return pad + 'TICK(%d);\n' % p[1]
-        if t == '!': return pad + 'THROW(K%d, %d);\n' % (p[1], p[2])
+        if t == '!': return pad + 'THROW(%d, %d);\n' % (p[1], p[2])
         if t == ';': return stmt(p[1], ind, name) + stmt(p[2], ind, name)
         if t == 'C':
             ctr[0] += 1
@@ -456,7 +520,7 @@ def lex_source(cases):
         if t == 'T':
             ctr[0] += 1
             e = 'e%d' % ctr[0]; d = 'd%d' % ctr[0]
-            flt = ''.join(', K%d' % k for k in p[1])
+            flt = ''.join(', X(%d,%d)' % (k // 10, k % 10) for k in p[1])
             return (pad + '{ size_t %s = LEN;\n' % d +
                     pad + 'try {\n' + stmt(p[2], ind + 1, name) +
                     pad + '} catch (%s%s) {\n' % (e, flt) +
@@ -471,7 +535,8 @@ def lex_source(cases):
         out.extend(funcs); del funcs[:]
         out.append('/* %s */\nstatic void %s(void) {\n%s}\n' % (c if len(c) < 300 else c[:300] + '...', name, body))
         names.append(name)
-    out.append('#define NPROG %d\nstatic void (*progs[])(void) = { %s };\n' % (len(names), ', '.join(names)))
+    out.append('#define NPROG %d\nstatic void (*progs[])(void) = { %s };\nstatic const char reps[] = "%s";\n' % (
+        len(names), ', '.join(names), ''.join(rep_of(c) for c in cases)))
     out.append(LEX_TAIL)
     return ''.join(out)
 
@@ -555,42 +620,53 @@ def nest_case(n, inner, filt=''):
 CORPUS = [
     # D3 (fixed): inner block handles, outer handler must not run / program must not die
     'T T0 !0,5 t1 t2',
-    '; T1 T0 !0,5 t1 t2 t3',
-    'T T !2,7 . t9',
-    '; T3 ; T2 !2,1 t1 t2 t3 t4',
+    '; T10 T0 !0,5 t1 t2 t3',
+    'T T !20,7 . t9',
+    '; T30 ; T20 !20,1 t1 t2 t3 t4',
     # inner handled, then a fresh throw in the same outer body is still seen by the outer block
-    'T1 ; T0 !0,1 t1 !1,22 t2',
+    'T10 ; T0 !0,1 t1 !10,22 t2',
     # non-matching inner filter, matching outer; nobody matches
-    'T0 T1 !0,5 t1 t2',
-    'T2 T1 !0,5 t1 t2',
+    'T0 T10 !0,5 t1 t2',
+    'T20 T10 !0,5 t1 t2',
     # throws from handlers: caught by the enclosing block, not by the own block; uncaught at top level
-    'T T0 !0,1 !1,2 t3',
+    'T T0 !0,1 !10,2 t3',
     'T0 !0,1 !0,2',
     'T0 T0 !0,1 !0,2 t3',
-    'T T0 !0,1 T1 !1,2 ; t5 !3,404 t6',
+    'T T0 !0,1 T10 !10,2 ; t5 !30,404 t6',
     # try inside a handler, depth inside handler, sequences
-    '; T !1,1 T1 ; t1 !1,2 t2 ; t3 T . t4',
-    '; ; T !0,1 t1 T !1,2 t2 T0 !0,12345 t3',
+    '; T !10,1 T10 ; t1 !10,2 t2 ; t3 T . t4',
+    '; ; T !0,1 t1 T !10,2 t2 T0 !0,12345 t3',
     # a filter naming an object twice (fixed: foreach over the filter Tuple never finished); the
     # generated-source harness passes the list as written
-    'T00 !1,1 .',
-    '; T T101 !2,1 t1 t2 t3',
-    'T0 T11 !0,3 t1 t2',
+    'T0.0 !10,1 .',
+    '; T T10.0.10 !20,1 t1 t2 t3',
+    'T0 T10.10 !0,3 t1 t2',
     # dynamic nesting
-    'C T C !2,3 C t1',
-    'T01 C T23 C !1,3 t1 t2',
+    'C T C !20,3 C t1',
+    'T0.10 C T20.30 C !10,3 t1 t2',
+    # identity of the bound object: distinct objects that are eq (same-named Types, equal Ints, equal
+    # Strings, a copy), thrown with the empty format after an eq object was handled
+    '; T !0,0 . T !1,0 t1',
+    '@I ; T !0,0 . ; T !10,0 . ; T !1,0 . ; T !0,7 . T !2,0 t1',
+    '@S T1 ; T0 !0,0 t1 !1,0 t2',
+    '@I T T !0,0 ; t1 !2,0 t2',
+    '@S ; T !31,5 . T30 !32,0 t1',
+    'T2 ; T0 !0,3 . !1,0 !2,0',
 ]
 
 
 def run(ctx):
     quick = ctx.tier == 'quick'
-    ctx.cov['rule'] = ('program trees (skip / tick / seq / throw kind,msg / try body filters handler / call) over 4 builtin exception '
-                       'objects, generated by five seeded shapes: general recursive trees (3-25 nodes), chains of nested try blocks around a '
-                       'throw with matching / non-matching / empty filters and handlers that tick, throw again or contain a try, '
-                       '"inner block handles" shapes (D3), sequences of constructs, handler-centred trees; plus deep chains (30-200 levels), '
-                       'the nesting bound itself, a lexical-nesting batch compiled from generated C, and (thorough) every tree up to the '
-                       'stated node count over 2 kinds.  Non-trivial = an exception was raised and entered a handler or killed the program; '
-                       'distinct = distinct implementation transcripts')
+    ctx.cov['rule'] = ('program trees (skip / tick / seq / throw object,msg / try body filters handler / call) over 12 exception '
+                       'objects = 4 kinds x 3 distinct objects that are `eq` to each other (realised per case as same-named Type objects '
+                       'incl. the builtin TypeError/ValueError/KeyError/IOError, as heap Ints, or as heap Strings; one variant made like '
+                       'copy()); throws with a message and with the EMPTY format; the harness reports the identity of the object bound in '
+                       'each handler.  Seeded shapes: general recursive trees (3-25 nodes, 1/2/4 kinds in play), chains of nested try '
+                       'blocks around a throw with matching / non-matching / empty filters and handlers that tick, throw again or contain a '
+                       'try, "inner block handles" shapes (D3), "eq twin thrown after a handled object" shapes, sequences of constructs, '
+                       'handler-centred trees; plus deep chains (30-200 levels), the nesting bound itself, a lexical-nesting batch compiled '
+                       'from generated C, and (thorough) every tree up to the stated node count.  Non-trivial = an exception was raised and '
+                       'entered a handler or killed the program; distinct = distinct implementation transcripts')
     ctx.assumptions += ['C text tied by correspondence only: extracted Gallina machine vs the real try/catch/throw macros and src/Exception.c of '
                         'the working tree (white-box read of e->msg); setjmp/longjmp themselves are trusted (a jump lands at the setjmp of the '
                         'buffer it names, frames in between are abandoned)',
@@ -637,8 +713,8 @@ def run(ctx):
             i += step
             step = min(chunk, step * 2)
 
-    bound = [nest_case(mx, '!1,5', ''),                 # exactly the bound: in scope
-             ' '.join(['T0'] * (mx - 1) + ['T1'] + ['!1,5'] + ['t1'] + ['t2'] * (mx - 1)),   # caught by the innermost of mx blocks
+    bound = [nest_case(mx, '!11,5', ''),                 # exactly the bound: in scope
+             ' '.join(['T0'] * (mx - 1) + ['T10'] + ['!11,0'] + ['t1'] + ['t2'] * (mx - 1)),   # caught by the innermost of mx blocks
              nest_case(mx + 1, 't1', '')]               # one more: overflow abort (model only; spec: out of scope)
     feed(d, CORPUS, 100)
     feed(d, bound, 10)
@@ -663,9 +739,9 @@ def run(ctx):
     ctx.cov['lexical_programs_compiled'] = lex.compiled
     if not quick:
         mn = int(os.environ.get('C07_EXH_NODES', '7'))
-        ex = list(enumerate_trees(mn, 2))
+        ex = list(enumerate_trees(mn))
         feed(d, ex, 20000)
-        ctx.cov['exhaustive'] = {'what': 'every tree with <= %d nodes (skip, tick, throw, seq, try) over 2 kinds and all 4 filter subsets' % mn,
+        ctx.cov['exhaustive'] = {'what': 'every tree with <= %d nodes (skip, tick, seq, try, throw of X0/X1 with the empty format and of X10 with a message; X0, X1 distinct but eq) and the filters catch-all, [X0], [X10], [X0, X10]' % mn,
                                  'trees': len(ex), 'bounded_search_only': True}
 
     if not quick:
